@@ -1384,7 +1384,12 @@ def rule_default_bytes(facts):
     if ok:
         body = [e for e in ev[1][2] if e[0] != "mark"]
         ok = len(body) == 1 and body[0][0] == "w" and body[0][1] == ("p", 1, ()) and body[0][2] == ("c", 8, None) \
-            and body[0][3] == ("elem", ev[1][1][1]) and body[0][4] == "write"
+            and E.strip_casts(body[0][3]) == ("elem", ev[1][1][1])
+        if ok:
+            # the whole byte: write::<u8>, the 8 LSBs of the (possibly widened) byte, or the 8 MSBs of a u8 operand
+            meth, wty = body[0][4], ectx.wtypes.get(body[0][5])
+            ok = (meth == "write" and body[0][3] == ("elem", ev[1][1][1])) or meth == "write_lsbs" or \
+                (meth == "write_msbs" and wty == "u8" and body[0][3] == ("elem", ev[1][1][1]))
     if ok:
         db.ok({"function": b.id, "summary": "; ".join(E.flat(ev))[:200], "verdict": "align, then write(u8) for every element"})
     else:
